@@ -32,8 +32,8 @@ import (
 
 func init() {
 	fw.Register(&fw.Check{
-		ID: "C19",
-		Rule: "cases: hostile inputs to every listed entry point, each call journaled (entry point + raw input) before it is made and run in a worker subprocess under ulimit -v with a per-case watchdog; oracle: any recovered panic, any worker death (fatal error: stack overflow / out of memory / concurrent map / checkptr, signal) or a watchdog expiry is a violation, every returned value or error is 'held'. Inputs: (a) structure-aware corruption of valid operations (4 types, re-signed so that corrupted deltas pass signature checks), DIDs, JWS, JWKs, patches (8 actions) and documents - at every JSON position each of 13 hostile replacement values, member deletion / duplication; (b) RFC 6902 hostility (negative / huge / leading-zero / non-numeric indices for every kind, test without value, null containers, from = path, path inside from, root pointers); (c) valid operations of an unexpected type for each entry point; (d) arbitrary byte strings and truncations of valid inputs at every offset; (e) separator floods, deep nesting, non-UTF-8. Two protocol configurations (shipped v1.0 and a permissive 64 KiB one). distinct = (entry point, input class, outcome kind).",
+		ID:          "C19",
+		Rule:        "cases: hostile inputs to every listed entry point, each call journaled (entry point + raw input) before it is made and run in a worker subprocess under ulimit -v with a per-case watchdog; oracle: any recovered panic, any worker death (fatal error: stack overflow / out of memory / concurrent map / checkptr, signal) or a watchdog expiry is a violation, every returned value or error is 'held'. Inputs: (a) structure-aware corruption of valid operations (4 types, re-signed so that corrupted deltas pass signature checks), DIDs, JWS, JWKs, patches (8 actions) and documents - at every JSON position each of 13 hostile replacement values, member deletion / duplication; (b) RFC 6902 hostility (negative / huge / leading-zero / non-numeric indices for every kind, test without value, null containers, from = path, path inside from, root pointers); (c) valid operations of an unexpected type for each entry point; (d) arbitrary byte strings and truncations of valid inputs at every offset; (e) separator floods, deep nesting, non-UTF-8. Two protocol configurations (shipped v1.0 and a permissive 64 KiB one). distinct = (entry point, input class, outcome kind).",
 		Assumptions: []string{"inputs capped at 64 KiB; the canonicalizer's cost is quadratic in nesting depth (64 Ki levels ~ 5 s), so a 120 s watchdog per small case is two orders of magnitude above the measured worst case", "allocation bombs below the 8 GiB address-space limit are observations, not violations"},
 		Require: []string{"entry:Parser.Parse", "entry:Parser.ParseOperation(batch)", "entry:Parser.GetRevealValue", "entry:Parser.GetCommitment", "entry:Parser.ParseDID",
 			"entry:DocumentHandler.ResolveDocument", "entry:DocumentHandler.ProcessOperation", "entry:VDR.Read", "entry:jwsutil.ParseJWS", "entry:jwsutil.VerifyJWS", "entry:jwsutil.VerifySignature",
